@@ -61,4 +61,45 @@ example : counter { b := 0, c := 0, d := pack32 0xffffffff#32 7#32 1#32 2#32 } +
 theorem source_code_match : type_of% @CC.Thm.C01.source_code_match ∧ type_of% @CC.Thm.C01.source_kernels_match :=
   ⟨CC.Thm.C01.source_code_match, CC.Thm.C01.source_kernels_match⟩
 
+/-- **End to end (regenerated code only).**  Only REGENERATED definitions (`CC.Gen.Kernels.*`, printed from
+    stream-ciphers/chacha/src/guts.rs on every run) and the scalar machine `Mach.ref` occur in this statement — no hand-written
+    model: for every state `(b, c, d)`, every `drounds : u32` and any initial contents of the output buffers (they are
+    overwritten entirely), `refill_wide_impl` (= `ChaCha::refill4`) returns the concatenation of the outputs of four consecutive
+    `refill_narrow`s (= `ChaCha::refill`) and leaves the state the fourth one leaves.  The generated functions return
+    `(b', c', d', out')`.  (`refill4_eq` rewritten with `CC.Src.src_chacha_refill_wide_impl` / `src_chacha_refill_narrow`,
+    the facts collected in `CC.Thm.C01.source_code_match`.) -/
+theorem generated_refill4_eq (b c d : BitVec 128) (dr : BitVec 32) (out o0 o1 o2 o3 : List (BitVec 8)) :
+    CC.Gen.Kernels.chacha_refill_wide_impl Mach.ref b c d dr out =
+      (let r0 := CC.Gen.Kernels.chacha_refill_narrow Mach.ref b c d dr o0
+       let r1 := CC.Gen.Kernels.chacha_refill_narrow Mach.ref r0.1 r0.2.1 r0.2.2.1 dr o1
+       let r2 := CC.Gen.Kernels.chacha_refill_narrow Mach.ref r1.1 r1.2.1 r1.2.2.1 dr o2
+       let r3 := CC.Gen.Kernels.chacha_refill_narrow Mach.ref r2.1 r2.2.1 r2.2.2.1 dr o3
+       (r3.1, r3.2.1, r3.2.2.1, r0.2.2.2 ++ r1.2.2.2 ++ r2.2.2.2 ++ r3.2.2.2)) := by
+  have aux : ∀ s : Guts, CC.Gen.Kernels.chacha_refill_wide_impl Mach.ref s.b s.c s.d dr out =
+      (let r0 := CC.Gen.Kernels.chacha_refill_narrow Mach.ref s.b s.c s.d dr o0
+       let r1 := CC.Gen.Kernels.chacha_refill_narrow Mach.ref r0.1 r0.2.1 r0.2.2.1 dr o1
+       let r2 := CC.Gen.Kernels.chacha_refill_narrow Mach.ref r1.1 r1.2.1 r1.2.2.1 dr o2
+       let r3 := CC.Gen.Kernels.chacha_refill_narrow Mach.ref r2.1 r2.2.1 r2.2.2.1 dr o3
+       (r3.1, r3.2.1, r3.2.2.1, r0.2.2.2 ++ r1.2.2.2 ++ r2.2.2.2 ++ r3.2.2.2)) := by
+    intro s
+    have key := refill4_eq s dr.toNat
+    rw [CC.Src.src_chacha_refill_wide_impl Mach.ref s dr out, CC.Src.src_chacha_refill_narrow Mach.ref s dr o0] at key
+    dsimp only
+    generalize CC.Gen.Kernels.chacha_refill_wide_impl Mach.ref s.b s.c s.d dr out = W at key ⊢
+    generalize CC.Gen.Kernels.chacha_refill_narrow Mach.ref s.b s.c s.d dr o0 = r0 at key ⊢
+    dsimp only [CC.Src.gutsOf] at key
+    rw [CC.Src.src_chacha_refill_narrow Mach.ref ⟨r0.1, r0.2.1, r0.2.2.1⟩ dr o1] at key
+    dsimp only [CC.Src.gutsOf] at key
+    generalize CC.Gen.Kernels.chacha_refill_narrow Mach.ref r0.1 r0.2.1 r0.2.2.1 dr o1 = r1 at key ⊢
+    rw [CC.Src.src_chacha_refill_narrow Mach.ref ⟨r1.1, r1.2.1, r1.2.2.1⟩ dr o2] at key
+    dsimp only [CC.Src.gutsOf] at key
+    generalize CC.Gen.Kernels.chacha_refill_narrow Mach.ref r1.1 r1.2.1 r1.2.2.1 dr o2 = r2 at key ⊢
+    rw [CC.Src.src_chacha_refill_narrow Mach.ref ⟨r2.1, r2.2.1, r2.2.2.1⟩ dr o3] at key
+    dsimp only [CC.Src.gutsOf] at key
+    generalize CC.Gen.Kernels.chacha_refill_narrow Mach.ref r2.1 r2.2.1 r2.2.2.1 dr o3 = r3 at key ⊢
+    obtain ⟨ho, hg⟩ := Prod.mk.inj key
+    obtain ⟨hb, hc, hd⟩ := Guts.mk.inj hg
+    exact Prod.ext hb (Prod.ext hc (Prod.ext hd ho))
+  exact aux ⟨b, c, d⟩
+
 end CC.Thm.C14
